@@ -27,14 +27,16 @@ static void* vf_resolve(const char* module, const char* name) {
 #endif
 
 typedef struct { int t; int k; U32* rets; } Arg;
+static int DEPTH;     /* > 0: every started thread spawns again, DEPTH generations deep (the depth travels in the top byte of the argument) */
 static void* worker(void* p) {
     Arg* a = (Arg*)p; int i;
-    for (i = 0; i < a->k; i++) a->rets[i] = m_spawn(&inst, (U32)(a->t * 1000 + i + 1));
+    for (i = 0; i < a->k; i++) a->rets[i] = m_spawn(&inst, (U32)(a->t * 1000 + i + 1) | ((U32)DEPTH << 24));
     return NULL;
 }
 
 int main(int argc, char** argv) {
     int T = atoi(argv[1]), K = atoi(argv[2]), i, j, total, waited = 0;
+    DEPTH = argc > 3 ? atoi(argv[3]) : 0;
     pthread_t th[64]; Arg args[64];
     (void)argc;
     if (!wasiInit(1, argv, environ)) return 2;
@@ -42,8 +44,9 @@ int main(int argc, char** argv) {
     for (i = 0; i < T; i++) { args[i].t = i; args[i].k = K; args[i].rets = (U32*)calloc((size_t)K, sizeof(U32)); pthread_create(&th[i], NULL, worker, &args[i]); }
     for (i = 0; i < T; i++) pthread_join(th[i], NULL);
     total = 0;
-    for (i = 0; i < T; i++) for (j = 0; j < K; j++) { printf("S %d %d\n", i * 1000 + j + 1, (int)args[i].rets[j]); if ((int)args[i].rets[j] > 0) total++; }
-    /* wait (bounded) until every started thread has logged */
+    for (i = 0; i < T; i++) for (j = 0; j < K; j++) { printf("S %u %d\n", (unsigned)(i * 1000 + j + 1) | ((unsigned)DEPTH << 24), (int)args[i].rets[j]); if ((int)args[i].rets[j] > 0) total++; }
+    /* wait (bounded) until every started thread - and every thread those started - has logged */
+    total *= DEPTH + 1;
     while (m_count(&inst) < (U32)total && waited < 20000) { usleep(1000); waited++; }
     usleep(20000);    /* a thread started twice would still be logging */
     {
@@ -54,6 +57,9 @@ int main(int argc, char** argv) {
             printf("L %u %u\n", tid, arg);
         }
         printf("N %u\n", n);
+        /* spawns made by the module's own threads: (argument, returned id) pairs logged at 32768 */
+        { U32 n2, q; memcpy(&n2, mem->data + 8, 4);
+          for (q = 0; q < n2 && q < 3000; q++) { U32 a2; I32 r2; memcpy(&a2, mem->data + 32768 + q * 8, 4); memcpy(&r2, mem->data + 32772 + q * 8, 4); printf("S %u %d\n", a2, r2); } }
     }
     return 0;
 }
